@@ -143,7 +143,8 @@ def hostile_environment():
                 except Exception: pass
     # ... and calls that failed half-way (parse errors in the abbreviation, in a nested snippet, in a stylesheet value): nothing of them is kept
     for ab, cfg in (('ul>li[title="', {}), ('(a+b', {}), ('box', {'snippets': {'box': 'div>menu', 'menu': 'nav>item', 'item': 'li[title="]'}}), ('p{${', {}), ('a{b', {'syntax': 'pug'}),
-                    ('p10(', {'type': 'stylesheet'}), ('c#zz"', {'type': 'stylesheet'}), ('lg(to right, "', {'type': 'stylesheet', 'cache': {}}), ('ul>li*', {'text': ['a', 'b'], 'maxRepeat': 1, 'options': {'output.field': lambda *a, **k: 1 / 0}})):
+                    ('p10(', {'type': 'stylesheet'}), ('c#zz"', {'type': 'stylesheet'}), ('lg(to right, "', {'type': 'stylesheet', 'cache': {}}), ('ul>li*', {'text': ['a', 'b'], 'maxRepeat': 1, 'options': {'output.field': lambda *a, **k: 1 / 0}}),
+                    ('ul>li*3{${n}}', {'variables': {'n': 5}}), ('(a>b*2{x ${n}})*2+c', {'variables': {'n': None}}), ('ul>li[title=${n}]*4>em*2', {'variables': {'n': 7}})):
         try: expand(ab, cfg)
         except Exception: pass
 
